@@ -11,13 +11,14 @@ All == ndJsonDeserialize(IOEnv.TRACE_FILE)
 VARIABLES tid, l, bad,
           src,        \* sequence of sources: [ao, kind, sig, p, n, d, t0, fired, cancelled, rejected, state]
           stopped,    \* AOs whose stop() has returned (or was called from their own handler)
-          stopcalled
-vars == <<tid, l, bad, src, stopped, stopcalled>>
+          stopcalled,
+          slack       \* total of the delays injected so far ("stall": a runnable thread was held back while the clock went on)
+vars == <<tid, l, bad, src, stopped, stopcalled, slack>>
 T == All[tid]
 E == T.ev[l]
 Time == E[Len(E)]
 Chk(ok, name) == IF ok THEN {} ELSE {name}
-TInit == tid \in DOMAIN All /\ l = 1 /\ bad = {} /\ src = <<>> /\ stopped = {} /\ stopcalled = {}
+TInit == tid \in DOMAIN All /\ l = 1 /\ bad = {} /\ src = <<>> /\ stopped = {} /\ stopcalled = {} /\ slack = 0
 Tracked(ao) == Cardinality({i \in 1..Len(src) : src[i].ao = ao /\ src[i].state = "accepted" /\ ~src[i].removed})
 
 Step ==
@@ -41,7 +42,8 @@ Step ==
                    \cup Chk(~s.cancelled, "FiredAfterCancel")                                                        \* C11
                    \cup Chk(~s.halted, "FiredAfterStop")        \* C12: a source that existed when stop() returned
                    \cup Chk(s.n = 0 \/ s.fired < s.n, "TooManyFires")                                               \* C10
-                   \cup Chk(Time = s.t0 + s.p * (s.fired + s.d), "WrongTime")
+                   (* never early; late by no more than the delays injected so far (exactly on time when there were none) *)
+                   \cup Chk(Time >= s.t0 + s.p * (s.fired + s.d) /\ Time <= s.t0 + s.p * (s.fired + s.d) + slack, "WrongTime")
                    \cup Chk(E[5] = (IF s.kind = "fifo" THEN "append" ELSE "appendleft"), "WrongEnd")
                    \cup Chk(E[2] = s.ao /\ E[4] = s.sig, "WrongTarget")
             /\ UNCHANGED <<stopped, stopcalled>>
@@ -71,7 +73,8 @@ Alone(s) == s.state = "accepted" /\ ~s.cancelled /\ ~s.halted /\ s.ao \notin sto
 Final ==
        Chk(T.end.outcome # "bound", "NoProgress") \cup Chk(T.end.outcome # "error", "Error")
   \cup Chk(T.end.outcome # "quiescent" \/ T.end.drivers_done, "Hang")
-  \cup Chk(\A i \in 1..Len(src) : Alone(src[i]) => src[i].fired = Due(src[i], T.end.horizon), "MissingFires")      \* C10, C11 (others keep running)
+  \cup Chk(\A i \in 1..Len(src) : Alone(src[i]) => /\ src[i].fired <= Due(src[i], T.end.horizon)
+                                                       /\ src[i].fired >= Due(src[i], IF T.end.horizon >= slack THEN T.end.horizon - slack ELSE 0), "MissingFires")      \* C10, C11 (others keep running)
   \cup Chk(\A a \in stopped : ("ao_" \o a) \notin {T.end.alive[k] : k \in 1..Len(T.end.alive)}, "ThreadAlive")       \* C12
   \cup Chk(\A a \in {T.aos[k] : k \in 1..Len(T.aos)} \ stopcalled :
              ("ao_" \o a) \in {T.end.alive[k] : k \in 1..Len(T.end.alive)} \/ a \notin {T.started[k] : k \in 1..Len(T.started)}, "OtherStopped")
@@ -80,6 +83,7 @@ Final ==
 TNext ==
   /\ bad = {} /\ l <= Len(T.ev) + 1 /\ tid' = tid /\ l' = l + 1
   /\ IF l <= Len(T.ev) THEN Step ELSE bad' = Final /\ UNCHANGED <<src, stopped, stopcalled>>
+  /\ slack' = IF l <= Len(T.ev) /\ E[1] = "stall" THEN slack + E[3] ELSE slack
   /\ IF bad' # {} THEN PrintT(ToJson([tid |-> T.tid, at |-> l, bad |-> bad', ev |-> IF l <= Len(T.ev) THEN E ELSE <<>>,
                                       fired |-> [i \in 1..Len(src) |-> src[i].fired]]))
      ELSE IF l = Len(T.ev) + 1 THEN PrintT(ToJson([tid |-> T.tid, done |-> l, fires |-> [i \in 1..Len(src) |-> src[i].fired]])) ELSE TRUE
